@@ -185,7 +185,13 @@ def upward_ops(node, root):
         ops += [("abs_getitem", lambda: node["/secret"].name), ("abs_contains", lambda: "/secret" in node), ("abs_get", lambda: node.get("/secret").name),
                 ("abs_copy_dst", lambda: node.copy(sorted(node.keys())[0], "/escaped") if len(node) else (_ for _ in ()).throw(KeyError())),
                 ("abs_setitem", lambda: node.__setitem__("/escaped2", 1)),
-                ("rel_dotdot", lambda: node["../secret"].name)]
+                ("rel_dotdot", lambda: node["../secret"].name),
+                # the same absolute paths handed over as bytes (h5py itself takes bytes paths)
+                ("abs_getitem_bytes", lambda: node[b"/secret"].name), ("abs_root_bytes", lambda: node[b"/"].name),
+                ("abs_get_bytes", lambda: node.get(b"/secret").name), ("abs_contains_bytes", lambda: b"/secret" in node),
+                ("abs_reqgrp_bytes", lambda: node.require_group(b"/g").name),
+                ("abs_create_bytes", lambda: node.create_group(b"/escaped3").name),
+                ("abs_setitem_bytes", lambda: node.__setitem__(b"/escaped4", 1))]
     def self_local():
         # the derived node is explicitly made local_only itself: it becomes its own local root
         node.restrict(local_only=True)
